@@ -318,6 +318,10 @@ def _assemble(x_chunks, shape, blocks, ref):
         if isinstance(want, np.ma.MaskedArray) != isinstance(got, np.ma.MaskedArray):
             # a block may be a plain ndarray while the concatenated result is masked (and vice versa)
             want, got = np.ma.asarray(want), np.ma.asarray(got)
+        if got.dtype != want.dtype and got.shape == want.shape and np.can_cast(got.dtype, want.dtype, "same_kind"):
+            # a block may be narrower than the assembled result (concatenate/stack promote when they
+            # assemble): the statement is about values
+            got = got.astype(want.dtype)
         r = same_value(got, want)
         if r:
             return f"block {idx}: {r}"
